@@ -65,7 +65,7 @@ func path(v ssa.Value, d int) string {
 	if v == nil {
 		return "<nil>"
 	}
-	if d > 14 {
+	if d > 28 {
 		return "…"
 	}
 	switch x := v.(type) {
